@@ -26,7 +26,10 @@ def mixcase(rng, s):
 
 # ------------------------------------------------------------------ generator
 def gen_score(rng, junk=False):
-    k = rng.randrange(12)
+    k = rng.randrange(15)
+    if k >= 12:
+        # scores finer than a hundredth: only the SUM is rounded
+        return rng.choice(['12.5%', '2.5%', '0.5%', '+2.5%', '-2.5%', '37.5%', '0.4%', '0.2%', 0.125, 0.375, '0.125', '-0.125', '+0.005', 0.005])
     n = rng.randrange(0, 60)
     if junk and rng.random() < 0.5:
         return rng.choice(['*2', '/2', '/0', 'abc', '1.2.3', '+', '%5', '.', '*50%'])
@@ -55,6 +58,24 @@ def gen_score(rng, junk=False):
     return '%d.5%%' % n
 
 
+def _kinds():
+    """every feedback kind the source declares (FeedbackKind), read from the source"""
+    import ast as _ast
+    import os as _os
+    tree = _ast.parse(open(_os.path.join(vlib.REPO, 'pedal/core/feedback_category.py')).read())
+    out = []
+    for n in _ast.walk(tree):
+        if isinstance(n, _ast.ClassDef) and n.name == 'FeedbackKind':
+            for st in n.body:
+                v = getattr(st, 'value', None)
+                if isinstance(st, (_ast.Assign, _ast.AnnAssign)) and isinstance(v, _ast.Constant) and isinstance(v.value, str):
+                    out.append(v.value)
+    return out or ['Compliment', 'Instructional', 'Mistake', 'Hint', 'Result', 'Encouragement']
+
+
+KINDS = _kinds()
+
+
 def gen_feedback(rng, junk=False):
     ctor = rng.choice(['Feedback'] * 6 + ['neg'] * 4 + ['runtime_like', 'compliment', 'set_correct', 'give_partial',
                                                         'gently', 'explain', 'guidance', 'muted_default', 'unscored_default'])
@@ -77,7 +98,7 @@ def gen_feedback(rng, junk=False):
                                                   'positive', 'parser', 'analyzer', 'verifier', 'instructor', 'junk',
                                                   'uncategorized', 'style']))
     if r() < 0.2:
-        kw['kind'] = rng.choice(['Compliment', 'Instructional', 'Mistake', 'Hint', 'Result'])
+        kw['kind'] = rng.choice(KINDS)
     if r() < 0.2 and 'muted' not in kw:
         kw['muted'] = rng.choice([True, False])
     if r() < 0.15 and 'unscored' not in kw:
@@ -92,12 +113,16 @@ def gen_feedback(rng, junk=False):
         kw['correct'] = rng.choice([True, False, None])
     if r() < 0.25:
         kw['valence'] = rng.choice([-1, 0, 1])
+    elif ctor in ('gently', 'explain', 'neg', 'runtime_like', 'muted_default', 'unscored_default') and r() < 0.25:
+        kw['valence'] = 0      # an explicitly neutral feedback of a class that is negative by default
     if ctor in ('Feedback', 'neg', 'runtime_like') and r() < 0.6:
         kw['message'] = 'm%d' % rng.randrange(50) if r() < 0.85 else ''
     if r() < 0.3:
         kw['title'] = 'T%d' % rng.randrange(9)
     if r() < 0.35:
         kw['fields'] = {k: rng.choice([1, 2, 'a', None, True]) for k in rng.sample(['q', 'name', 'line'], rng.randrange(1, 3))}
+    if r() < 0.4:
+        kw['parent'] = rng.choice(['A', 'B', 7])      # the section / group the feedback belongs to (by name or number)
     return {'ctor': ctor, 'kwargs': kw}
 
 
@@ -280,8 +305,35 @@ def score_value(txt):
     return -v if m.group(1) == '-' else v
 
 
-def oracle(pid, case, out):
+def flags_honoured(case, snaps, flags):
+    for x in snaps:
+        if 'spec' in x and 'class_muted' in x:
+            kwargs = case['feedbacks'][x['spec']]['kwargs']
+            for flag in flags:
+                if kwargs.get(flag) is None:
+                    continue
+                got = x[flag]
+                want = kwargs[flag] if flag == 'valence' else bool(kwargs[flag])
+                if got != want:
+                    return ('flag-not-honoured:' + flag, 'feedback %d was created with %s=%r but takes part as %s=%r'
+                            % (x['id'], flag, kwargs[flag], flag, got))
+    return None
+
+
+def oracle(pid, case, out, _group=False):
     """Returns (key, message) when the real implementation's answer violates property `pid`."""
+    if pid == 'C01' and not _group and isinstance(out.get('sectional'), list) and 'raise' not in out.get('simple', {}):
+        # the sectional resolver makes the same choice among the feedback of each parent (triggered feedback only)
+        for g, fin in out['sectional']:
+            sub = dict(out, active=[x for x in out['active'] if x.get('parent') == g], ignored=[], simple=fin)
+            v = oracle('C01', case, sub, _group=True)
+            if v:
+                return ('sectional:' + v[0], 'sectional resolver, group %r: %s' % (g, v[1]))
+        groups = {x.get('parent') for x in out['active']}
+        if groups != {g for g, _ in out['sectional']}:
+            return ('sectional:groups', 'sectional resolver produced results for %s, the triggered feedback has parents %s' % (sorted(map(str, {g for g, _ in out['sectional']})), sorted(map(str, groups))))
+    elif pid == 'C01' and not _group and isinstance(out.get('sectional'), dict) and 'raise' in out['sectional'] and 'raise' not in out.get('simple', {}):
+        return ('sectional:raises', 'sectional.resolve raised %s: %s' % (out['sectional']['raise'], out['sectional'].get('msg')))
     snaps = out['active'] + out['ignored']
     calls = case['suppress']
     s = out['simple']
@@ -298,13 +350,9 @@ def oracle(pid, case, out):
     vis = [x for x in snaps if shown(x, calls)]
     if pid == 'C01':
         # what the call asked for is what takes part in the resolution (an explicit False beats a class default)
-        for x in snaps:
-            if 'spec' in x and 'class_muted' in x:
-                kwargs = case['feedbacks'][x['spec']]['kwargs']
-                for flag in ('muted', 'unscored'):
-                    if kwargs.get(flag) is not None and x[flag] != bool(kwargs[flag]):
-                        return ('flag-not-honoured:' + flag, 'feedback %d was created with %s=%r (class default %r) but takes part as %s=%r'
-                                % (x['id'], flag, kwargs[flag], x['class_' + flag], flag, x[flag]))
+        v = flags_honoured(case, snaps, ('muted', 'unscored'))
+        if v:
+            return v
         if s['used'] is None:
             if elig:
                 return ('default-despite-eligible', 'default result although feedback %s is eligible' % [x['id'] for x in elig])
@@ -330,6 +378,9 @@ def oracle(pid, case, out):
         if bool(s['correct']) != want or bool(s['json_correct']) != want or bool(s['success']) != want:
             return ('correct-mismatch', 'correct=%s but shown feedback correct flags are %s' % (s['correct'], [(x['id'], x['correct']) for x in vis]))
     if pid == 'C03' and scores_in_quantifier:
+        v = flags_honoured(case, snaps, ('valence', 'unscored'))
+        if v:
+            return v
         if s['is_default']:
             if Fraction(*s['score']) != 1:
                 return ('default-score', 'default result with score %s' % s['score_raw'])
